@@ -33,6 +33,7 @@ def dmlFn (kind : String) (arg : Int) : Tbl → Option Tbl :=
   | "delwhere" => fun c => some (c.filter (· ≠ arg))
   | "incr" => fun c => some (c.map (· + 1))
   | "fail" => fun c => if c.isEmpty then some c else none     -- UPDATE … SET v = 1 / (v - v)
+  | "incrfail" => fun c => if c.contains arg then none else some (c.map (· + 1))   -- fails part-way
   | _ => fun _ => none
 
 def c01stepCore (s : State Tbl) (cmd : String) (args : List String) : State Tbl × String :=
